@@ -571,8 +571,10 @@ theorem hq0_listener {cfg : Cfg} {G : Nat} {n : Net} {x y : Nat} {stx sty : NetS
     (h : HQ0 cfg G n x y stx sty r r0 hd dn rs lY coll tl) (hok : cfg.Ok) (hG : cfg.slot + 3 * cfg.P ≤ G) (now : Int)
     (htl : tl ≤ now) (hown : n.bus.seen.getD y 0 < now) (hgy : now ≤ n.bus.seen.getD y 0 + (cfg.P : Nat)) :
     ∃ n' inc c, n.poll y now = (n', inc, some (.ok c)) ∧ c.tx = none ∧
-      ((∃ hd' dn' rs' lY', HQ0 cfg G n' x y stx (upSt sty c) r r0 hd' dn' rs' lY' coll now) ∨
-       HQ1 cfg n' x y stx (upSt sty c) r now coll now) := by
+      ((∃ hd' dn' rs' lY', HQ0 cfg G n' x y stx (upSt sty c) r r0 hd' dn' rs' lY' coll now ∧
+          hd' ++ rs'.map telOf = hd ++ rs.map telOf) ∨
+       (HQ1 cfg n' x y stx (upSt sty c) r now coll now ∧
+          (upSt sty c).s.ring = hearAll stx.s.p.address (hd ++ rs.map telOf) r0)) := by
   have hr := hok.rate
   have hmar := hok.margin
   have hc5 := cfg.ce5 hr
@@ -640,7 +642,7 @@ theorem hq0_listener {cfg : Cfg} {G : Nat} {n : Net} {x y : Nat} {stx sty : NetS
       by simp only [List.length_set]; exact h.yl, hX, hearly', by show c.s.p.rate = _ ∧ c.s.p.slotBits = _; rw [hp]; exact h.py,
       h.pbx, fun t ht => Int.le_trans (h.starts t ht) htl, hseensNew⟩
   rcases hres with hX | ⟨k, d, hk1, hdm, hfl, hlastd, hX⟩
-  · exact .inl ⟨hd, dn, rs, _, stillQ0 hd dn rs _ hX h.rsne h.others hcrs hposrs⟩
+  · exact .inl ⟨hd, dn, rs, _, stillQ0 hd dn rs _ hX h.rsne h.others hcrs hposrs, rfl⟩
   · by_cases hdr : rs.drop k = []
     · -- the request has been consumed: registered
       right
@@ -666,9 +668,9 @@ theorem hq0_listener {cfg : Cfg} {G : Nat} {n : Net} {x y : Nat} {stx sty : NetS
       obtain ⟨x1, x2, x3, x4, x5, x6, x7, x8, x9, x10, x11, x12, x13, x14, x15, x16⟩ := hX
       have hdn' : ({ n.bus with seen := n.bus.seen.set y now } : Bus).txs = dn ++ rs.take k := by
         have := x8; simpa using this
-      refine ⟨hsoloX, by rw [haddr]; exact h.stx_st, by rw [haddr]; exact h.stx_gap, ?_, x15, h.yx, ?_,
+      refine ⟨⟨hsoloX, by rw [haddr]; exact h.stx_st, by rw [haddr]; exact h.stx_gap, ?_, x15, h.yx, ?_,
         (by rw [seen_set_self _ _ _ h.ys]; omega), ?_, ?_, h.pbx,
-        fun t ht => Int.le_trans (h.starts t ht) htl, hseensNew⟩
+        fun t ht => Int.le_trans (h.starts t ht) htl, hseensNew⟩, by rw [x7, hdm, hrsk]⟩
       · refine ⟨hs.rate, hs.drops, hs.corrupt, hs.chained, hs.live, hs.pos, ?_, ?_, by simp only [List.length_set]; exact h.yl,
           by simp only [List.length_set]; exact h.ys, List.getElem?_set_self h.yl, x1, x2, x3, x4, ?_, x13,
           by show c.s.p.rate = _; rw [hp]; exact h.py.1, by show c.s.p.slotBits = _; rw [hp]; exact h.py.2⟩
@@ -721,7 +723,8 @@ theorem hq0_listener {cfg : Cfg} {G : Nat} {n : Net} {x y : Nat} {stx sty : NetS
           rw [← e]
           exact hlt.regSr_none (by omega) fl
       rw [hnone] at hX
-      refine ⟨_, _, _, _, stillQ0 _ _ _ _ hX hlast' (fun t ht => h.others t (mem_dropLast_of_drop t k rs ht)) ?_ ?_⟩
+      refine ⟨_, _, _, _, stillQ0 _ _ _ _ hX hlast' (fun t ht => h.others t (mem_dropLast_of_drop t k rs ht)) ?_ ?_,
+        by rw [hdm, List.append_assoc, ← List.map_append, List.take_append_drop]⟩
       · have : rs = rs.take k ++ rs.drop k := (List.take_append_drop _ _).symm
         rw [this] at hcrs
         exact (List.pairwise_append.1 hcrs).2.1
@@ -793,8 +796,12 @@ theorem hq1_claimant {cfg : Cfg} {n : Net} {x y : Nat} {stx sty : NetStation} {r
 claimant `x` (stamp `lX`) still awaits: its buffer holds exactly what has arrived of the reply, which is
 incomplete, and the next character arrives before its slot time runs out. -/
 structure HQ2 (cfg : Cfg) (n : Net) (x y : Nat) (stx sty : NetStation) (r q : Int) (state : ResponseState) (lX : Int)
-    (tl : Int) : Prop where
+    (coll : Nat) (tl : Int) : Prop where
   soloY : Solo cfg n y sty (q + (cfg.b66 : Nat))
+  sty_st : sty.s.st = .listenToken none coll
+  qtl : q ≤ tl
+  tto : cfg.slot + 3 * cfg.P + cfg.ce 0 + 2 ≤ sty.s.p.tokenLostTimeout
+  nadm : ¬ Admits state .ok
   gx : n.stations[x]? = some stx
   xl : x < n.stations.length
   xs : x < n.bus.seen.length
@@ -829,12 +836,12 @@ poll after it, it sends the status reply (phase Q2). -/
 theorem hq1_listener {cfg : Cfg} {n : Net} {x y : Nat} {stx sty : NetStation} {r h1 : Int} {coll : Nat} {tl : Int}
     (h : HQ1 cfg n x y stx sty r h1 coll tl) (hok : cfg.Ok) (now : Int) (htl : tl ≤ now)
     (hown : n.bus.seen.getD y 0 < now) (hgy : now ≤ n.bus.seen.getD y 0 + (cfg.P : Nat))
-    (hsx : n.bus.seen.getD x 0 ≤ r + (cfg.b66 : Nat) + (cfg.slot : Nat)) :
+    (hsx : n.bus.seen.getD x 0 ≤ r + (cfg.b66 : Nat) + (cfg.slot : Nat)) (hnr : sty.s.ring.readyForRing = false) :
     ∃ n' c, n.poll y now = (n', [], some (.ok c)) ∧
-      ((c.tx = none ∧ HQ1 cfg n' x y stx (upSt sty c) r h1 coll now) ∨
+      ((c.tx = none ∧ upSt sty c = sty ∧ HQ1 cfg n' x y stx (upSt sty c) r h1 coll now) ∨
        (c.tx = some (statusResponseBytes stx.s.p.address sty.s.p.address (listenReport sty.s stx.s.p.address)) ∧
           h1 + (cfg.b33 : Nat) < now ∧ now ≤ h1 + (cfg.b33 : Nat) + (cfg.P : Nat) ∧
-          HQ2 cfg n' x y stx (upSt sty c) r now (listenReport sty.s stx.s.p.address) (r + (cfg.b66 : Nat)) now)) := by
+          HQ2 cfg n' x y stx (upSt sty c) r now (listenReport sty.s stx.s.p.address) (r + (cfg.b66 : Nat)) coll now)) := by
   have hr := hok.rate
   have hmar := hok.margin
   have hc5 := cfg.ce5 hr
@@ -868,7 +875,7 @@ theorem hq1_listener {cfg : Cfg} {n : Net} {x y : Nat} {stx sty : NetStation} {r
     simp only at hbus
     rw [hsY.gx] at hst0
     cases hst0
-    refine ⟨n', _, hp, .inl ⟨rfl, ?_⟩⟩
+    refine ⟨n', _, hp, .inl ⟨rfl, hupY, ?_⟩⟩
     rw [hupY] at hS hset ⊢
     have hsxx : n'.bus.seen.getD x 0 = n.bus.seen.getD x 0 := by rw [hbus]; exact seen_set_other n.bus y x now h.yx
     exact ⟨hs.otherPoll y now sty h.yx hbus hset, h.stx_st, h.stx_gap, hS, h.sty_st, h.yx, h.reg,
@@ -891,10 +898,11 @@ theorem hq1_listener {cfg : Cfg} {n : Net} {x y : Nat} {stx sty : NetStation} {r
       unfold markTx
       simp only [StationGap.stamped_p]
       rw [show sty.s.p.bits (11 * 6) = cfg.b66 from hsY.bits 66]
-    obtain ⟨cR, hdr', k1, k2, k3, k4, k5⟩ : ∃ cR : Ctx, dispatch { s := sty.s, apps := sty.apps, rx := [] } now = .ok cR ∧
+    obtain ⟨cR, hdr', k1, k2, k3, k4, k5, k6⟩ : ∃ cR : Ctx, dispatch { s := sty.s, apps := sty.apps, rx := [] } now = .ok cR ∧
         cR.s.online = true ∧ cR.s.p = sty.s.p ∧ cR.rx = [] ∧ cR.s.lastBusActivity = some (now + (cfg.b66 : Nat)) ∧
-        cR.tx = some (statusResponseBytes stx.s.p.address sty.s.p.address (listenReport sty.s stx.s.p.address)) :=
-      ⟨_, hdr, hsY.son, rfl, rfl, hst', rfl⟩
+        cR.tx = some (statusResponseBytes stx.s.p.address sty.s.p.address (listenReport sty.s stx.s.p.address)) ∧
+        cR.s.st = .listenToken none coll :=
+      ⟨_, hdr, hsY.son, rfl, rfl, hst', rfl, by show (if sty.s.ring.readyForRing = true then _ else _) = _; rw [hnr]; rfl⟩
     obtain ⟨n', hp, hS, hseen⟩ := solo_step hsY hr now hown hlt cR hno.1 hno.2 hdr' (now + (cfg.b66 : Nat)) k1 k2 k3 k4
       (by omega) (fun b hb => by
         rw [k5] at hb
@@ -921,7 +929,12 @@ theorem hq1_listener {cfg : Cfg} {n : Net} {x y : Nat} {stx sty : NetStation} {r
       simp only
       have := h.seens.1
       omega
-    refine ⟨hS, by rw [hset, List.getElem?_set_ne h.yx]; exact hs.gx, by rw [hset, List.length_set]; exact hs.xl,
+    have hnadm : ¬ Admits (listenReport sty.s stx.s.p.address) .ok := by
+      unfold listenReport Admits
+      rw [hnr]
+      simp
+    refine ⟨hS, k6, Int.le_refl _, by show _ ≤ cR.s.p.tokenLostTimeout; rw [k2]; exact htto, hnadm,
+      by rw [hset, List.getElem?_set_ne h.yx]; exact hs.gx, by rw [hset, List.length_set]; exact hs.xl,
       by rw [hbus, e4]; simp only [List.length_set]; exact hs.xs,
       ⟨hs.online, hs.alive, hs.inv, hs.son, hs.prate, hs.pslot⟩, by rw [haddrY]; exact h.stx_st, by rw [haddrY]; exact h.stx_gap,
       h.yx, ?_, ?_, ?_, ?_, hs.stamp, Int.le_refl _, by omega, .inl rfl, ?_, ?_, ?_⟩
